@@ -557,7 +557,8 @@ def _check_rect(case):
 
 
 _SHEETS = ['Sheet1', 'SHEET2', 'Data_1', 'a.b', 'My Sheet', 'x y z', "it's", 'Ünï', 'S1', 'R1C1x', 'été 2020']
-_BOOKS = [None, ('', '1'), ('', '12'), ('', 'book.xlsx'), ('dir', 'book.xlsx'), ('dir/', 'book.xlsx'), ('a b', 'My Book.xlsx')]
+_BOOKS = [None, ('', '1'), ('', '12'), ('', 'book.xlsx'), ('dir', 'book.xlsx'), ('dir/', 'book.xlsx'), ('a b', 'My Book.xlsx'),
+          ('data/2023', '2023 budget.xlsx'), ('data/2024', '2023 budget.xlsx'), ('', '1st.xlsx'), ('x', '7up')]
 
 
 def _sheet_spellings(sheet, book):
@@ -675,11 +676,34 @@ BOUNDED = [
           'whole-column and whole-row forms over boundary and random indices, $/case/R1C1-style spellings, read-back (slow resolver)',
           classify=_classify_boundary),
     Stage('B1:sheet-qualifiers', 'C04', _sheet_cases, _check_sheet,
-          '11 sheet names x 7 workbook qualifiers: quoting, case, doubled apostrophes give one id; the id reads back', parallel=False,
+          '11 sheet names x 11 workbook qualifiers: quoting, case, doubled apostrophes give one id; the id reads back', parallel=False,
           classify=_classify_boundary),
     Stage('B1:sheet-ids-distinct', 'C04', lambda tier, rng: [('all',)], _check_sheet_distinct,
-          'ids of the 77 (workbook, sheet) pairs are pairwise distinct', parallel=False),
+          'ids of the 121 (workbook, sheet) pairs are pairwise distinct', parallel=False),
+    Stage('A:upper-axioms', 'C04', lambda tier, rng: [(lo, min(lo + 0x8000, 0x110000)) for lo in range(0, 0x110000, 0x8000)],
+          lambda case: _check_upper_axioms(*case),
+          'the engine\'s axioms about str.upper() on arbitrary text, checked on every code point (upper() is character-wise): '
+          'idempotent, never empty, creates/removes none of the punctuation [ ] \' ! : / and blank', exhaustive=True, parallel=False,
+          weight=lambda case: case[1] - case[0]),
 ]
+
+
+def _check_upper_axioms(lo, hi):
+    from pyvc.models import UPPER_STABLE
+    for k in range(lo, hi):
+        c = chr(k)
+        u = c.upper()
+        if u.upper() != u or not u:
+            return 'upper() not idempotent / empty at U+%04X' % k
+        for ch in UPPER_STABLE:
+            if (ch in u) != (ch == c):
+                return 'upper() of U+%04X creates or removes %r' % (k, ch)
+    # character-wise: a sample of concatenations
+    for k in range(lo, hi, 997):
+        w = chr(k) + 'ß' + chr(k) + "a'["
+        if w.upper() != ''.join(x.upper() for x in w):
+            return 'upper() is not character-wise on %r' % w
+    return None
 
 
 
@@ -756,5 +780,88 @@ PROPERTIES['C04']['assumptions'] = [
     'regex delivers the named groups (bounded stage only); schedula evaluates the wired graph of _range2parts as wired',
     'functools.lru_cache transparent on _index2col/_maxcol/_maxrow',
 ]
-PROPERTIES['C04']['not_proved'] = ['_build_sheet_id quoting/case/injectivity: bounded stage only (uninterpreted upper() on arbitrary text)',
+PROPERTIES['C04']['not_proved'] = ['_build_sheet_id: case-insensitivity and doubled-apostrophe spellings of the sheet name are bounded only (upper() is uninterpreted); form and workbook-injectivity are proved',
                                    'regex spelling -> parts, relative references through the schedula resolver: bounded stage only']
+
+
+# ------------------------------------------------------------------------------------ sheet identifiers (_build_sheet_id)
+# Sheet and file names as Excel admits them in a qualifier: no brackets, no line breaks; directories carry no '['.
+_NAME_RE = r"[^\[\]\n]*"
+SheetName, FileName, DirName = StrT(), StrT(), StrT()
+
+c_sid = Contract('formulas.tokens.operand:_build_sheet_id', dict(sheet=SheetName, directory=DirName, filename=FileName), 'C04', returns=StrT(),
+                 name='_build_sheet_id')
+CONTRACTS.append(c_sid)
+
+
+def _plain(x):
+    return not ('[' in x) and not (']' in x) and not ('\n' in x)
+
+
+@c_sid.requires
+def _(sheet, directory, filename):
+    return _plain(sheet) and _plain(filename) and _plain(directory)
+
+
+def spec_sheet_id(sheet, directory, filename):
+    """[n]SHEET for an external-link index n (all digits), 'dir/[file]SHEET' for a workbook file, SHEET (quoted when it
+    holds a blank) otherwise; SHEET is the upper-cased sheet name with doubled apostrophes undone."""
+    s = sheet.replace("''", "'").upper()
+    if filename == '':
+        return ("'" + s + "'") if ' ' in s else s
+    if in_re(filename, '[0-9]+'):
+        return '[' + filename + ']' + s
+    d = directory if (directory == '' or directory.endswith('/')) else directory + '/'
+    return "'" + d + '[' + filename + ']' + s + "'"
+
+
+@c_sid.ensures('identifier-has-the-documented-form', 'P')
+def _(sheet, directory, filename, result):
+    return result == spec_sheet_id(sheet, directory, filename)
+
+
+@c_sid.canary('canary:directory-never-matters')
+def _(sheet, directory, filename, result):
+    return result == spec_sheet_id(sheet, '', filename)
+
+
+@c_sid.ensures('workbook-can-be-read-off-the-identifier', 'P')
+def _(sheet, directory, filename, result):
+    # a left inverse: the file name and (for workbook files) the normalised directory are substrings of the identifier
+    # at positions fixed by its first brackets; hence identifiers of different workbooks differ (lemma below)
+    i, j = result.find('['), result.find(']')
+    return filename == '' or (
+        0 <= i < j and result[i + 1:j] == filename
+        and ((i == 0) if in_re(filename, '[0-9]+') else (result[0:1] == "'" and result[1:i] == _norm_dir(directory))))
+
+
+def _norm_dir(d):
+    return d if (d == '' or d.endswith('/')) else d + '/'
+
+
+def lemma_sheet_ids_distinct(s1, d1, f1, s2, d2, f2):
+    from formulas.tokens.operand import _build_sheet_id
+    return _build_sheet_id(s1, d1, f1), _build_sheet_id(s2, d2, f2)
+
+
+c_sid_inj = Contract(lambda: lemma_sheet_ids_distinct,
+                     dict(s1=StrT(), d1=StrT(), f1=StrT(), s2=StrT(), d2=StrT(), f2=StrT()), 'C04',
+                     name='lemma:workbooks-do-not-share-sheet-ids', use=['_build_sheet_id'])
+CONTRACTS.append(c_sid_inj)
+
+
+@c_sid_inj.requires
+def _(s1, d1, f1, s2, d2, f2):
+    return _plain(s1) and _plain(f1) and _plain(d1) and _plain(s2) and _plain(f2) and _plain(d2)
+
+
+@c_sid_inj.ensures('same-identifier-only-for-the-same-workbook', 'P')
+def _(s1, d1, f1, s2, d2, f2, result):
+    # a qualifier with a file name never shares its identifier with one of another file or another directory
+    return (result[0] != result[1]) or f1 == '' or f2 == '' or (
+        f1 == f2 and (in_re(f1, '[0-9]+') or _norm_dir(d1) == _norm_dir(d2)))
+
+
+@c_sid_inj.canary('canary:ids-always-differ')
+def _(s1, d1, f1, s2, d2, f2, result):
+    return result[0] != result[1]
